@@ -54,6 +54,19 @@ Definition set_flags r a b c d e := {| cid := cid r; ser := ser r; addr := addr 
 Definition pfx (r : req) : str := decZ (cid r) ++ [sp] ++ addr r ++ [sp] ++ dec (port r).
 Definition tag (r : req) : str := hexZ32 (cid r) ++ [x5f] ++ hex (ser r).
 
+(* structured output lines; `render` gives the bytes written to the server channel *)
+Inductive out :=
+| OX (name : str) (id : Z) (sr : N) (payload : str)          (* query carrying a routing tag *)
+| OC (k : byte) (id : Z) (a : str) (p : N) (rest : str)      (* client-addressed message: k id addr port rest *)
+| ORaw (s : str).
+Definition render (o : out) : str :=
+  match o with
+  | OX n id sr pl => S_ "X " ++ n ++ [sp] ++ hexZ32 id ++ [x5f] ++ hex sr ++ S_ " :" ++ pl
+  | OC k id a p rest => [k; sp] ++ decZ id ++ [sp] ++ a ++ [sp] ++ dec p ++ rest
+  | ORaw t => t
+  end.
+Definition oc (k : byte) (r : req) (rest : str) : out := OC k (cid r) (addr r) (port r) rest.
+
 (* ---------- query pass (iauth_xquery_check) ---------- *)
 Definition username (r : req) : str :=
   firstn 10 (match authu r with _ :: _ => authu r | [] =>
@@ -69,10 +82,9 @@ Definition is_drone t := match t with Drone => true | _ => false end.
 Definition is_loginish t := match t with Login | LoginIpr => true | _ => false end.
 Definition nonempty (s : str) : bool := match s with [] => false | _ => true end.
 
-Definition xline (name : str) (r : req) (payload : str) : str :=
-  S_ "X " ++ name ++ [sp] ++ tag r ++ S_ " :" ++ payload.
+Definition xline (name : str) (r : req) (payload : str) : out := OX name (cid r) (ser r) payload.
 
-Fixpoint qpass (ss : list (str * stype)) (slot : N) (is_pw : bool) (r : req) (outs : list str) : req * list str :=
+Fixpoint qpass (ss : list (str * stype)) (slot : N) (is_pw : bool) (r : req) (outs : list out) : req * list out :=
   match ss with
   | [] => (r, outs)
   | (name, t) :: rest =>
@@ -110,13 +122,13 @@ Fixpoint glob (fuel : nat) (p s : str) : bool :=
   end end.
 Definition fnm (p s : str) : bool := glob (2 * (List.length p + List.length s) + 2) p s.
 
-Fixpoint classify (rs : list rule) (r : req) : list str * str :=     (* extra lines, class *)
+Fixpoint classify (rs : list rule) (r : req) : list out * str :=     (* extra lines, class *)
   match rs with
   | [] => ([], [])
   | ru :: rest =>
     if match r_acct ru with Some g => fnm g (upto x3a (acct r)) | None => true end then
       let u := if starts (cliu r) x7e then tl (cliu r) else cliu r in
-      let extra := if r_trust ru && starts (authu r) x7e && nonempty u then [S_ "U " ++ pfx r ++ [sp] ++ u] else [] in
+      let extra := if r_trust ru && starts (authu r) x7e && nonempty u then [oc x55 r (sp :: u)] else [] in
       (extra, firstn 62 (match r_class ru with Some c => c | None => r_name ru end))
     else classify rest r
   end.
@@ -128,14 +140,14 @@ Definition upd_hold (r : req) (h s : Z) (sd : bool) : req := {| cid := cid r; se
   hh := hh r; ho := ho r; sent := sent r; refm := refm r; more := more r; pw := pw r; timer := timer r |}.
 
 (* returns (Some r' if still live | None if decided, lines) *)
-Definition gate (c : cfg) (r : req) : option req * list str :=
+Definition gate (c : cfg) (r : req) : option req * list out :=
   if (holds r =? 0)%Z && f_host r && f_ident r && f_nick r && f_user r then
     if (soft r =? 0)%Z || f_tout r then
       let '(extra, k) := classify (rules c) r in
-      let line := (match acct r with [] => S_ "D " ++ pfx r | _ => S_ "R " ++ pfx r ++ [sp] ++ acct r end)
-                  ++ (match k with [] => [] | _ => sp :: k end) in
+      let kl := match k with [] => [] | _ => sp :: k end in
+      let line := match acct r with [] => oc x44 r kl | _ => oc x52 r (sp :: acct r ++ kl) end in
       (None, extra ++ [line])
-    else if negb (f_sdone r) then (Some (upd_hold r (holds r) (soft r) true), [S_ "d " ++ pfx r])
+    else if negb (f_sdone r) then (Some (upd_hold r (holds r) (soft r) true), [oc x64 r []])
     else (Some r, [])
   else (Some r, []).
 
@@ -159,7 +171,7 @@ Definition with_pw (r : req) (hh' ho' : bool) (h : Z) (p : str) : req := {| cid 
   holds := h; soft := soft r; host := host r; cliu := cliu r; authu := authu r; nick := nick r; real := real r; acct := acct r;
   hh := hh'; ho := ho'; sent := sent r; refm := refm r; more := more r; pw := p; timer := timer r |}.
 
-Fixpoint cont (ss : list (str * stype)) (slot : N) (t : str) (r : req) (outs : list str) : req * list str :=
+Fixpoint cont (ss : list (str * stype)) (slot : N) (t : str) (r : req) (outs : list out) : req * list out :=
   match ss with
   | [] => (r, outs)
   | (name, _) :: rest =>
@@ -173,7 +185,7 @@ Fixpoint cont (ss : list (str * stype)) (slot : N) (t : str) (r : req) (outs : l
     else cont rest (slot + 1) t r outs
   end.
 
-Definition password (c : cfg) (r : req) (t : str) : req * list str :=
+Definition password (c : cfg) (r : req) (t : str) : req * list out :=
   if (more r =? 0) || negb (nonempty (pw r)) then
     if negb (starts t x2b || starts t x2d) then (r, []) else
     match modes (S (List.length t)) t false false false false false with
@@ -209,12 +221,12 @@ Definition release (r : req) (slot : N) (mr : bool) (newacct : option str) (h : 
 Definition unlinked_text := S_ "The login server is currently disconnected.  Please excuse the inconvenience.".
 
 (* text = None for unlinked *)
-Definition reply (c : cfg) (r : req) (svc : str) (text : option str) : option req * list str :=
+Definition reply (c : cfg) (r : req) (svc : str) (text : option str) : option req * list out :=
   match find_slot (svcs c) 0 svc (refm r) with
   | None => (Some r, [])
   | Some (slot, t) =>
     match text with
-    | None => let o := if is_drone t then [] else [S_ "C " ++ pfx r ++ S_ " :" ++ unlinked_text] in
+    | None => let o := if is_drone t then [] else [oc x43 r (S_ " :" ++ unlinked_text)] in
               let '(r', g) := gate c (release r slot false None (holds r)) in (r', o ++ g)
     | Some tx =>
       if seq_eq tx (S_ "OK") then gate c (release r slot false None (holds r))
@@ -223,13 +235,13 @@ Definition reply (c : cfg) (r : req) (svc : str) (text : option str) : option re
         if negb (nonempty a) || is_drone t then gate c (release r slot false None (holds r))
         else
           let h := if ho r && negb (nonempty (acct r)) then (holds r - 1)%Z else holds r in
-          let o := if hh r || ho r then [S_ "M " ++ pfx r ++ S_ " :+x"] else [] in
+          let o := if hh r || ho r then [oc x4d r (S_ " :+x")] else [] in
           let '(r', g) := gate c (release r slot false (Some (firstn 64 a)) h) in (r', o ++ g)
-      else if prefix (S_ "NO ") tx then (None, [S_ "k " ++ pfx r ++ S_ " :" ++ skipn 3 tx])
+      else if prefix (S_ "NO ") tx then (None, [oc x6b r (S_ " :" ++ skipn 3 tx)])
       else if prefix (S_ "AGAIN ") tx then
-        let '(r', g) := gate c (release r slot false None (holds r)) in (r', [S_ "C " ++ pfx r ++ S_ " :" ++ skipn 6 tx] ++ g)
+        let '(r', g) := gate c (release r slot false None (holds r)) in (r', [oc x43 r (S_ " :" ++ skipn 6 tx)] ++ g)
       else if prefix (S_ "MORE ") tx then
-        let '(r', g) := gate c (release r slot true None (holds r)) in (r', [S_ "C " ++ pfx r ++ S_ " :" ++ skipn 5 tx] ++ g)
+        let '(r', g) := gate c (release r slot true None (holds r)) in (r', [oc x43 r (S_ " :" ++ skipn 5 tx)] ++ g)
       else (Some r, [])
     end
   end.
@@ -253,13 +265,13 @@ Definition with_fields (r : req) (h cu au ni re : str) (em : bool) : req := {| c
   holds := holds r; soft := soft r; host := h; cliu := cu; authu := au; nick := ni; real := re; acct := acct r;
   hh := hh r; ho := ho r; sent := sent r; refm := refm r; more := more r; pw := pw r; timer := timer r |}.
 
-Definition finish (s : st) (id : Z) (res : option req * list str) : st * list str :=
+Definition finish (s : st) (id : Z) (res : option req * list out) : st * list out :=
   match fst res with
   | Some r' => ({| reqs := put r' (reqs s); next := next s |}, snd res)
   | None => ({| reqs := remove id (reqs s); next := next s |}, snd res)
   end.
 
-Definition after (c : cfg) (r : req) (is_pw : bool) : option req * list str :=
+Definition after (c : cfg) (r : req) (is_pw : bool) : option req * list out :=
   let '(r1, o) := qpass (svcs c) 0 is_pw r [] in
   let '(r2, g) := gate c r1 in (r2, o ++ g).
 
@@ -280,7 +292,7 @@ Definition arg (n : nat) (argv : list str) : option str := nth_error argv n.
 Definition cmdchar (argv : list str) : byte := match argv with (c :: _) :: _ => c | _ => x00 end.
 Definition decnum (s : str) : N := fold_left (fun a c => let n := Byte.to_N c in if (48 <=? n) && (n <=? 57) then a * 10 + (n - 48) else a) s 0.
 
-Definition step (c : cfg) (s : st) (id : Z) (argv : list str) : st * list str :=
+Definition step (c : cfg) (s : st) (id : Z) (argv : list str) : st * list out :=
   let ch := cmdchar argv in
   if beq ch x43 (* C *) then
     match arg 1 argv, arg 2 argv, arg 3 argv, arg 4 argv with
@@ -338,7 +350,7 @@ Definition step (c : cfg) (s : st) (id : Z) (argv : list str) : st * list str :=
       | Some u, Some re =>
         let r1 := with_fields r (host r) (firstn 10 u) (authu r) (nick r) (firstn 50 re) (f_empty r) in
         finish s id (after c (set_flags r1 (f_host r) (f_ident r || f_empty r) (f_nick r) true (f_pass r)) false)
-      | _, _ => (s, [S_ "> :ircd sent garbage: <id> U without realname"])
+      | _, _ => (s, [ORaw (S_ "> :ircd sent garbage: <id> U without realname")])
       end
     else if beq ch x48 (* H *) then finish s id (after c (set_flags r true true true true (f_pass r)) false)
     else if beq ch x50 (* P *) then
@@ -350,11 +362,13 @@ Definition step (c : cfg) (s : st) (id : Z) (argv : list str) : st * list str :=
     else (s, [])
   end.
 
-Definition run (c : cfg) (evs : list (Z * list str)) : list (list str) :=
+Definition run_out (c : cfg) (evs : list (Z * list str)) : list (list out) :=
   snd (fold_left (fun acc e => let '(s, outs) := acc in let '(s', o) := step c s (fst e) (snd e) in (s', outs ++ [o]))
                  evs ({| reqs := []; next := 0 |}, [])).
 
 (* ---------- smoke test against lines the real daemon printed in the design phase ---------- *)
+Definition run (c : cfg) (evs : list (Z * list str)) : list (list str) := map (map render) (run_out c evs).
+
 Definition cfg1 := {| svcs := [(S_ "login.svc", Login); (S_ "login2.svc", Login)];
                       rules := [{| r_name := S_ "r500"; r_class := Some (S_ "dflt"); r_acct := None; r_trust := false |}];
                       has_timeout := false |}.
